@@ -404,7 +404,8 @@ static ANeigh* makeNeigh(const Plan& p, const Case& c, int ndim, int type, bool 
   {
     int nmaxi = std::min(10, std::max(3, c.nmaxi));
     int nsect = (c.nsect == 4 && ndim >= 2) ? 4 : 1;
-    n = NeighMoving::create(false, hugeNmini ? 1000 : nmaxi, 30., hugeNmini ? 500 : 1, nsect, nsect > 1 ? 3 : ITEST);
+    // explicit isotropic coefficients: without them the distance checker assumes 2 dimensions whatever the space
+    n = NeighMoving::create(false, hugeNmini ? 1000 : nmaxi, 30., hugeNmini ? 500 : 1, nsect, nsect > 1 ? 3 : ITEST, VectorDouble((size_t)ndim, 1.));
   }
   else n = NeighImage::create(VectorInt((size_t)ndim, 1), 0);
   defineDefaultSpace(ESpaceType::RN, (unsigned)p.ndim);
